@@ -54,7 +54,9 @@ def gen_program(rng):
         fault = (pos + 1, "syntax")
     forms += shown
     sep = rng.choice(["\n", "\n", "\r\n", "\n\n", " "])
-    text = sep.join(forms) + rng.choice(["", "\n", "\r\n"])
+    # the file may BEGIN with blank lines, indentation or a comment line: positions are positions in the file as it is
+    lead = rng.choice(["", "", "", "\n", "\n\n\n", "    ", "\r\n\r\n", " \n\t", "; a first line\n", "\n  ; indented comment\n\n"])
+    text = lead + sep.join(forms) + rng.choice(["", "\n", "\r\n"])
     return forms, text, fault
 
 
@@ -239,7 +241,7 @@ def main(tier, seed):
     rep.cov["rule"] = ("random programs that import the standard libraries, define, compute and display (strings with parentheses and "
                        "semicolons included), half of them with one injected run-time fault (8 kinds x 6 contexts) at a random position, a fifth "
                        "with a form rejected before evaluation (malformed special form, stray parenthesis, bad literal, unclosed form at end of file), "
-                       "joined by LF / CRLF / blank lines / blanks, with or without final newline; plus displays of literal strings of up to 9000 characters with line breaks anywhere (expected output known without running anything), program files of 8-33 KiB with a character outside ASCII at every byte offset around the multiples of 4096 / 8192, a missing file, a directory, "
+                       "joined by LF / CRLF / blank lines / blanks, with or without final newline, the file beginning with blank lines, indentation or a comment in half of the cases; plus displays of literal strings of up to 9000 characters with line breaks anywhere (expected output known without running anything), program files of 8-33 KiB with a character outside ASCII at every byte offset around the multiples of 4096 / 8192, a missing file, a directory, "
                        "a non-UTF-8 file, an empty file, CR LF inside a string literal; each run through the built binary from "
                        "another working directory, and (a sample) also by bare name from its own directory, as ./name and through ..; "
                        "distinct = distinct program texts")
